@@ -19,11 +19,15 @@ import (
 	"github.com/cosmos/cosmos-proto/internal/verifsim/simrun"
 	"github.com/cosmos/cosmos-proto/internal/verifsim/simval"
 	"github.com/cosmos/cosmos-proto/testpb"
+	"google.golang.org/protobuf/encoding/protowire"
 	"google.golang.org/protobuf/proto"
+	"google.golang.org/protobuf/reflect/protodesc"
 	"google.golang.org/protobuf/reflect/protoreflect"
 	"google.golang.org/protobuf/reflect/protoregistry"
 	"google.golang.org/protobuf/runtime/protoiface"
 	"google.golang.org/protobuf/runtime/protoimpl"
+	"google.golang.org/protobuf/types/descriptorpb"
+	"google.golang.org/protobuf/types/dynamicpb"
 	"google.golang.org/protobuf/types/known/anypb"
 )
 
@@ -135,6 +139,60 @@ type hist struct {
 
 var histKinds = []string{"morph", "unmarshal-merge-split", "reflect-sorted", "reflect-permuted", "extras-delete", "grow-shrink", "struct", "struct-empty-notnil", "unmarshal-shuffled", "clone", "merge", "overwrite", "reflect-truncate"}
 
+var errExpectedFailure = fmt.Errorf("packing below a parent with a missing required field failed, as it should")
+
+var envelopes = map[string]protoreflect.MessageDescriptor{}
+
+// envelopeFor wraps m into a dynamicpb parent `message Envelope { M payload = 1; }`
+// (proto3), or for required=true `message Envelope2 { optional M payload = 1;
+// required int32 must = 2; }` (proto2) with `must` left unset.
+func envelopeFor(m proto.Message, required bool) (proto.Message, error) {
+	md := m.ProtoReflect().Descriptor()
+	key := fmt.Sprintf("%s/%v", md.FullName(), required)
+	ed := envelopes[key]
+	if ed == nil {
+		name := "Envelope"
+		fdp := &descriptorpb.FileDescriptorProto{
+			Name:       proto.String("verifsim/envelope/" + strings.ReplaceAll(key, "/", "_") + ".proto"),
+			Package:    proto.String("verifsim.envelope"),
+			Syntax:     proto.String("proto3"),
+			Dependency: []string{md.ParentFile().Path()},
+		}
+		msg := &descriptorpb.DescriptorProto{Name: proto.String(name)}
+		msg.Field = append(msg.Field, &descriptorpb.FieldDescriptorProto{Name: proto.String("payload"), Number: proto.Int32(1), JsonName: proto.String("payload"),
+			Label: descriptorpb.FieldDescriptorProto_LABEL_OPTIONAL.Enum(), Type: descriptorpb.FieldDescriptorProto_TYPE_MESSAGE.Enum(), TypeName: proto.String("." + string(md.FullName()))})
+		if required {
+			fdp.Syntax = proto.String("proto2")
+			msg.Field = append(msg.Field, &descriptorpb.FieldDescriptorProto{Name: proto.String("must"), Number: proto.Int32(2), JsonName: proto.String("must"),
+				Label: descriptorpb.FieldDescriptorProto_LABEL_REQUIRED.Enum(), Type: descriptorpb.FieldDescriptorProto_TYPE_INT32.Enum()})
+		}
+		fdp.MessageType = []*descriptorpb.DescriptorProto{msg}
+		fd, err := protodesc.NewFile(fdp, protoregistry.GlobalFiles)
+		if err != nil {
+			return nil, fmt.Errorf("envelope descriptor: %v", err)
+		}
+		ed = fd.Messages().Get(0)
+		envelopes[key] = ed
+	}
+	env := dynamicpb.NewMessage(ed)
+	env.Set(ed.Fields().Get(0), protoreflect.ValueOfMessage(m.ProtoReflect()))
+	return env, nil
+}
+
+// stripEnvelope takes the payload bytes out of an encoded envelope holding
+// field 1 only.
+func stripEnvelope(b []byte) ([]byte, error) {
+	num, typ, n := protowire.ConsumeTag(b)
+	if n < 0 || num != 1 || typ != protowire.BytesType {
+		return nil, fmt.Errorf("envelope: unexpected first record")
+	}
+	payload, k := protowire.ConsumeBytes(b[n:])
+	if k < 0 || n+k != len(b) {
+		return nil, fmt.Errorf("envelope: trailing or truncated bytes")
+	}
+	return append([]byte{}, payload...), nil
+}
+
 func marshalVariant(m proto.Message, api int, prefix []byte) (b []byte, err error) {
 	defer func() {
 		if r := recover(); r != nil {
@@ -160,6 +218,32 @@ func marshalVariant(m proto.Message, api int, prefix []byte) (b []byte, err erro
 			return nil, err
 		}
 		return a.Value, nil
+	case 4:
+		// the message as a field of a parent implemented by another library
+		// (dynamicpb): protobuf-go encodes the parent and hands the flag down
+		env, err := envelopeFor(m, false)
+		if err != nil {
+			return nil, err
+		}
+		out, err := proto.MarshalOptions{Deterministic: true}.Marshal(env)
+		if err != nil {
+			return nil, err
+		}
+		return stripEnvelope(out)
+	case 5:
+		// the same below a proto2 parent whose REQUIRED field is missing, packed
+		// with the module's Any helper: that fails on the unchanged tree (then
+		// this encoding does not count); whatever it returns when it does not
+		// fail has to be the deterministic encoding too
+		env, err := envelopeFor(m, true)
+		if err != nil {
+			return nil, err
+		}
+		a := &anypb.Any{}
+		if err := anyutil.MarshalFrom(a, env, proto.MarshalOptions{Deterministic: true}); err != nil {
+			return nil, errExpectedFailure
+		}
+		return stripEnvelope(a.Value)
 	default:
 		meth := m.ProtoReflect().ProtoMethods()
 		if meth == nil || meth.Marshal == nil {
@@ -357,8 +441,8 @@ func run(c *simrun.Ctx) *simrun.Violation {
 		}
 		reps := 2 + t.Draw("reps", 7)
 		for r := 0; r < reps; r++ {
-			api := t.Draw("api", 8) // 0 Marshal, 1 MarshalAppend, 2 Methods.Marshal, 3 anyutil.MarshalFrom
-			if api > 3 {
+			api := t.Draw("api", 12) // 0 Marshal, 1 MarshalAppend, 2 Methods.Marshal, 3 anyutil.MarshalFrom, 4 below a dynamicpb parent, 5 the same with a missing required field
+			if api > 5 {
 				api %= 3
 			}
 			var prefix []byte
@@ -411,6 +495,10 @@ func run(c *simrun.Ctx) *simrun.Violation {
 			}
 			c.Observe(uint64(hi), uint64(r), uint64(api), simhook.HashString(string(b)), ctl.VecHash)
 			desc := fmt.Sprintf("history=%d(%s) rep=%d api=%d ordmode=%d ordseed=%d", hi, kind, r, api, mode, seed)
+			if err == errExpectedFailure {
+				st.Add("probe_packing_below_a_parent_with_missing_required_field_failed", 1)
+				continue
+			}
 			if err != nil {
 				failures++
 				if firstFail == "" {
